@@ -30,6 +30,7 @@
 #include <xercesc/validators/schema/SchemaGrammar.hpp>
 #include <xercesc/validators/DTD/DTDGrammar.hpp>
 #include <xercesc/dom/DOM.hpp>
+#include <xercesc/dom/impl/DOMDocumentImpl.hpp>
 #include <xercesc/util/XMLUni.hpp>
 #include <xercesc/util/StringPool.hpp>
 #include <xercesc/util/SynchronizedStringPool.hpp>
@@ -44,7 +45,9 @@ using namespace xh;
 
 static std::map<std::string, std::string> gDocs;   // id -> bytes
 static std::map<std::string, std::string> gExt;    // file name -> bytes
-static const char* kBase = "file:///c15/doc.xml";
+static std::string gDir = "/c15";           // W <dir>: directory holding the external DTDs / schemas as files
+static std::string baseUri() { return "file://" + gDir + "/doc.xml"; }
+static std::string extUri(const std::string& f) { return "file://" + gDir + "/" + f; }
 
 static std::string unhex(const std::string& h) {
     std::string out;
@@ -178,7 +181,7 @@ struct Handlers : public DocumentHandler, public DefaultHandler, public DOMError
         auto it = gExt.find(f);
         const std::string& body = it == gExt.end() ? gEmpty() : it->second;
         r->event("RES:" + f + (it == gExt.end() ? "(none)" : ""));
-        std::string full = std::string("file:///c15/") + f;
+        std::string full = extUri(f);
         XS id(full);
         return new Wrapper4InputSource(new MemBufInputSource((const XMLByte*)body.data(), body.size(), id, false), true);
     }
@@ -265,6 +268,26 @@ static const XMLCh* scannerName(const std::string& s) {
     return XMLUni::fgIGXMLScanner;
 }
 
+// memory manager that remembers the blocks it handed out so that the harness can tell, without touching the memory,
+// whether a block containing a given address (an adopted document) has been given back
+struct TrackMM : public MemoryManager {
+    std::map<char*, size_t> live;
+    std::vector<const void*> watch;     // addresses of adopted documents
+    std::vector<bool> freedFlag;
+    void* allocate(XMLSize_t n) override { void* p = ::operator new(n ? n : 1); live[(char*)p] = n; return p; }
+    void deallocate(void* p) override {
+        if (!p) return;
+        auto it = live.find((char*)p);
+        if (it != live.end()) {
+            for (size_t i = 0; i < watch.size(); i++)
+                if ((const char*)watch[i] >= it->first && (const char*)watch[i] < it->first + it->second) freedFlag[i] = true;
+            live.erase(it);
+        }
+        ::operator delete(p);
+    }
+    MemoryManager* getExceptionMemoryManager() override { return XMLPlatformUtils::fgMemoryManager; }
+};
+
 struct P {
     Rec rec;
     Handlers h;
@@ -285,8 +308,9 @@ struct P {
     virtual void resetGrammarPool() = 0;
     virtual void resetDocPool() {}
     virtual bool adopt() { return false; }
+    virtual bool adoptedFreed(size_t) { return false; }
     virtual std::string result() { return rec.canon(); }
-    void cleanup() { for (auto d : adopted) d->release(); adopted.clear(); }
+    void cleanup() { for (size_t i = 0; i < adopted.size(); i++) if (!adoptedFreed(i)) adopted[i]->release(); adopted.clear(); }
 };
 
 template <class T> static void setCommon(T* p, const std::string& f, int v) {
@@ -314,7 +338,7 @@ struct PSax : P {
     PSax() { p = new SAXParser(0, XMLPlatformUtils::fgMemoryManager, pool); p->setDocumentHandler(&h); p->setErrorHandler(&h);
              p->setDTDHandler(&h); p->setEntityResolver(&h); }
     ~PSax() { delete p; delete pool; }
-    void set(const std::string& f, int v) override { setCommon(p, f, v); }
+    void set(const std::string& f, int v) override { if (f == "resolver") p->setEntityResolver(v ? &h : 0); else setCommon(p, f, v); }
     void use(const std::string& sc) override { p->useScanner(scannerName(sc)); }
     void parse(const InputSource& s) override { p->parse(s); }
     bool first(const InputSource& s) override { return p->parseFirst(s, token); }
@@ -326,11 +350,14 @@ struct PSax : P {
 };
 struct PDom : P {
     XercesDOMParser* p;
-    PDom() { p = new XercesDOMParser(0, XMLPlatformUtils::fgMemoryManager, pool); p->setErrorHandler(&h); p->setEntityResolver(&h);
+    TrackMM* mm;
+    PDom() { mm = new TrackMM(); p = new XercesDOMParser(0, mm, pool); p->setErrorHandler(&h); p->setEntityResolver(&h);
              p->setCreateSchemaInfo(true); }
-    ~PDom() { cleanup(); delete p; delete pool; }
+    ~PDom() { cleanup(); delete p; delete pool; delete mm; }
+    bool adoptedFreed(size_t i) override { return mm->freedFlag[i]; }
     void set(const std::string& f, int v) override {
-        if (f == "entrefs") p->setCreateEntityReferenceNodes(v != 0);
+        if (f == "resolver") p->setEntityResolver(v ? &h : 0);
+        else if (f == "entrefs") p->setCreateEntityReferenceNodes(v != 0);
         else if (f == "ignws") p->setIncludeIgnorableWhitespace(v == 0);
         else setCommon(p, f, v);
     }
@@ -350,6 +377,7 @@ struct PDom : P {
         DOMDocument* d = p->adoptDocument();
         if (!d) return false;
         adopted.push_back(d); adoptedDump.push_back(dumpDoc(d));
+        mm->watch.push_back((const void*)dynamic_cast<DOMDocumentImpl*>(d)); mm->freedFlag.push_back(false);
         return true;
     }
     std::string result() override { return rec.canon() + " D[" + dumpDoc(p->getDocument()) + "]"; }
@@ -362,7 +390,8 @@ struct PSax2 : P {
     ~PSax2() { delete p; delete pool; }
     void set(const std::string& f, int v) override {
         bool b = v != 0;
-        if (f == "ns") p->setFeature(XMLUni::fgSAX2CoreNameSpaces, b);
+        if (f == "resolver") p->setEntityResolver(b ? &h : 0);
+        else if (f == "ns") p->setFeature(XMLUni::fgSAX2CoreNameSpaces, b);
         else if (f == "nsprefixes") p->setFeature(XMLUni::fgSAX2CoreNameSpacePrefixes, b);
         else if (f == "schema") p->setFeature(XMLUni::fgXercesSchema, b);
         else if (f == "val") { p->setFeature(XMLUni::fgXercesDynamic, v == 2); p->setFeature(XMLUni::fgSAX2CoreValidation, v != 0); }
@@ -405,7 +434,8 @@ struct PLs : P {
     void sp(const XMLCh* n, bool b) { DOMConfiguration* c = p->getDomConfig(); if (c->canSetParameter(n, b)) c->setParameter(n, b); }
     void set(const std::string& f, int v) override {
         bool b = v != 0;
-        if (f == "ns") sp(XMLUni::fgDOMNamespaces, b);
+        if (f == "resolver") p->getDomConfig()->setParameter(XMLUni::fgDOMResourceResolver, (const void*)(b ? (DOMLSResourceResolver*)&h : 0));
+        else if (f == "ns") sp(XMLUni::fgDOMNamespaces, b);
         else if (f == "schema") sp(XMLUni::fgXercesSchema, b);
         else if (f == "val") { sp(XMLUni::fgDOMValidateIfSchema, v == 2); sp(XMLUni::fgDOMValidate, v == 1); }
         else if (f == "skipdtd") sp(XMLUni::fgXercesSkipDTDValidation, b);
@@ -470,7 +500,7 @@ static const std::string* docOf(const std::string& id) {
     return it == gDocs.end() ? 0 : &it->second;
 }
 
-struct HistState { bool locked = false; std::string lockedKeys; std::string poolViolation; };
+struct HistState { bool locked = false; std::string lockedKeys; std::string poolViolation; std::string adoptViolation; };
 
 // applies one operation; config = true when the operation is one a fresh parser also receives
 static void applyOp(P* p, const std::string& op, HistState& hs, bool freshSide) {
@@ -478,7 +508,7 @@ static void applyOp(P* p, const std::string& op, HistState& hs, bool freshSide) 
     const std::string& k = a[0];
     bool isCfg = (k == "s" || k == "us");
     if (freshSide && !isCfg) return;
-    XS base(kBase);
+    XS base(baseUri());
     if (k == "s" && a.size() >= 3) { guarded([&] { p->set(a[1], atoi(a[2].c_str())); }); }
     else if (k == "us" && a.size() >= 2) { guarded([&] { p->use(a[1]); }); }
     else if ((k == "p" || k == "px") && a.size() >= 2) {
@@ -502,7 +532,7 @@ static void applyOp(P* p, const std::string& op, HistState& hs, bool freshSide) 
     }
     else if (k == "lg" && a.size() >= 4) {
         auto it = gExt.find(a[1]); if (it == gExt.end()) return;
-        std::string full = std::string("file:///c15/") + a[1];
+        std::string full = extUri(a[1]);
         XS id(full);
         p->rec.clear();
         MemBufInputSource src((const XMLByte*)it->second.data(), it->second.size(), id, false);
@@ -513,6 +543,8 @@ static void applyOp(P* p, const std::string& op, HistState& hs, bool freshSide) 
     else if (k == "ad") guarded([&] { p->adopt(); });
     else if (k == "lk") { p->pool->lockPool(); hs.locked = true; hs.lockedKeys = poolKeys(p->pool); }
     else if (k == "ul") { p->pool->unlockPool(); hs.locked = false; }
+    for (size_t i = 0; i < p->adopted.size(); i++)
+        if (p->adoptedFreed(i) && hs.adoptViolation.empty()) hs.adoptViolation = "after " + op;
     if (hs.locked && hs.poolViolation.empty()) {
         std::string now = poolKeys(p->pool);
         if (now != hs.lockedKeys) hs.poolViolation = "after " + op + ": " + hs.lockedKeys + " -> " + now;
@@ -529,7 +561,7 @@ static std::string clip(const std::string& s, size_t n = 1500) { return s.size()
 static std::string finalParse(P* p, const std::string& docId) {
     const std::string* d = docOf(docId);
     if (!d) return "(nodoc)";
-    XS base(kBase);
+    XS base(baseUri());
     p->rec.clear();
     MemBufInputSource src((const XMLByte*)d->data(), d->size(), base, false);
     std::string how = guarded([&] { p->parse(src); });
@@ -544,6 +576,12 @@ static std::string compare(const std::string& A, const std::string& B, int nEv, 
     return "diff # at " + std::to_string(i) + " # HIST " + clip(A.substr(st)) + " || FRESH " + clip(B.substr(st));
 }
 
+static std::string stripRes(std::string s) {
+    size_t k;
+    while ((k = s.find("RES:")) != std::string::npos) { size_t e = s.find(' ', k); s.erase(k, e == std::string::npos ? std::string::npos : e - k + 1); }
+    return s;
+}
+
 static std::string doHistory(const std::vector<std::string>& t) {
     if (t.size() < 4) return "bad-request";
     const std::string& api = t[1]; const std::string& sc = t[2];
@@ -552,16 +590,27 @@ static std::string doHistory(const std::vector<std::string>& t) {
     std::unique_ptr<P> ph(mk(api, sc)), pf(mk(api, sc));
     HistState hs, hf;
     for (size_t i = 3; i + 1 < t.size(); i++) { applyOp(ph.get(), t[i], hs, false); applyOp(pf.get(), t[i], hf, true); }
+    bool transparent = fin.size() >= 3 && fin[2] == "t";    // cached grammars may be in play: entity-resolution events not compared
     if (fin.size() >= 3 && fin[2] == "r") { if (hs.locked) { ph->pool->unlockPool(); hs.locked = false; } guarded([&] { ph->resetGrammarPool(); }); }
     std::string A = finalParse(ph.get(), fin[1]);
     int nEv = ph->rec.nEv, nErr = ph->rec.nErr;
     std::string B = finalParse(pf.get(), fin[1]);
     if (hs.locked) { std::string now = poolKeys(ph->pool); if (now != hs.lockedKeys && hs.poolViolation.empty()) hs.poolViolation = "after final parse: " + hs.lockedKeys + " -> " + now; }
+    // the parser gives its own documents back now; an adopted one must not be among them
+    if (!ph->adopted.empty()) {
+        guarded([&] { ph->resetDocPool(); });
+        for (size_t i = 0; i < ph->adopted.size(); i++)
+            if (ph->adoptedFreed(i) && hs.adoptViolation.empty()) hs.adoptViolation = "at resetDocumentPool after the final parse";
+    }
+    if (!hs.adoptViolation.empty())
+        return "adoptchanged # the parser released the memory of a document it had handed out by adoptDocument (" + hs.adoptViolation + ")";
     if (!hs.poolViolation.empty()) return "poolchanged # " + hs.poolViolation;
     for (size_t i = 0; i < ph->adopted.size(); i++) {
+        if (ph->adoptedFreed(i)) return "adoptchanged # the parser released the memory of a document it had handed out by adoptDocument";
         std::string now = dumpDoc(ph->adopted[i]);
         if (now != ph->adoptedDump[i]) return "adoptchanged # " + clip(ph->adoptedDump[i], 400) + " || " + clip(now, 400);
     }
+    if (transparent) { A = stripRes(A); B = stripRes(B); }
     return compare(A, B, nEv, nErr);
 }
 
@@ -751,6 +800,7 @@ int main() {
         if (t.empty()) ans = "bad-request";
         else if (t[0] == "D" && t.size() >= 3) { gDocs[t[1]] = unhex(t[2]); ans = "ok"; }
         else if (t[0] == "X" && t.size() >= 3) { gExt[t[1]] = unhex(t[2]); ans = "ok"; }
+        else if (t[0] == "W" && t.size() >= 2) { gDir = t[1]; ans = "ok"; }
         else {
             std::string how = guarded([&] {
                 if (t[0] == "H") ans = doHistory(t);
